@@ -221,7 +221,7 @@ Proof.
   rewrite firstn_all2 by lia.
   destruct (dec4_loop_emit (N.of_nat n) segs 0 0 [] [] gia Hwf ltac:(fold n; lia) eq_refl
               ltac:(fold n; cbn [length]; lia) I I) as (acc & L1 & L2 & L3 & L4).
-  fold n in L1. cbn [length] in L1. fold ros A B C in L1.
+  fold n in L1. cbn [length] in L1. change (N.of_nat 0) with 0 in L1. fold ros A B C in L1.
   rewrite L1. unfold omap. cbn [obind]. rewrite frev_rev.
   eexists. split; [reflexivity|]. split; [now apply sorted_keys_rev_desc|].
   intros c Hc. rewrite lookup_rev_desc by assumption. rewrite L4.
